@@ -105,6 +105,28 @@ SPEC = [
          'FixedReplicationDescriptor': {'attrs': {'id': 'int'}, 'methods': {'n_repeats': {}}},
          'OperatorDescriptor': {'attrs': {'id': 'int'}, 'methods': {'operator_code': {}, 'operand_value': {}}},
      }},
+    # ---- C11 / C12: the stream scanner (flow function: generator, try/except, callbacks) ----
+    {'module': 'decoder', 'file': 'pybufrkit/decoder.py',
+     'consts': ['DATA_CATEGORY_DEFINE_BUFR_TABLES'],
+     'records': {'Msg': {'fields': {'serialized_bytes': 'bytes', 'length.value': 'int', 'data_category.value': 'int',
+                                    'n_subsets.value': 'int'}}},
+     'flowfuncs': {'generate_bufr_message': {
+         'params': {'s': 'bytes', 'info_only': 'bool', 'continue_on_error': 'bool', 'filter_expr': 'opt[str]'},
+         'ignored_params': ['decoder', '*args', '**kwargs'],
+         'locals': {'bufr_message': 'Msg', 'sr': 'opt[obj]'},
+         'yields': 'Msg',
+         'callbacks': {
+             'decoder.process': {'lean': 'decoder_process', 'returns': 'Msg',
+                                 'args': [('pos', 'bytes'), ('constkw', 'start_signature', None), ('kw', 'info_only', 'bool'),
+                                          ('varargs',), ('kwargs',)]},
+             'ScriptRunner': {'lean': 'ScriptRunner', 'returns': 'obj', 'args': [('pos', 'opt[str]'), ('constkw', 'mode', 'eval')]},
+             'sr.run': {'lean': 'sr_run', 'receiver': 'sr', 'returns': 'bool', 'args': [('pos', 'Msg')]},
+             'BufrTableDefinitionProcessor().process': {'lean': 'table_definition_process', 'returns': 'tuple[obj,obj,obj]',
+                                                        'args': [('pos', 'Msg')]},
+             'TableGroupCacheManager.invalidate': {'lean': 'table_cache_invalidate', 'returns': 'unit', 'args': []},
+             'TableGroupCacheManager.add_extra_entries': {'lean': 'table_cache_add_extra_entries', 'returns': 'unit',
+                                                          'args': [('pos', 'obj'), ('pos', 'obj')]},
+         }}}},
     {'module': 'script', 'file': 'pybufrkit/script.py',
      'consts': ['STATE_IDLE', 'STATE_EMBEDDED_QUERY', 'STATE_SINGLE_QUOTE', 'STATE_DOUBLE_QUOTE', 'STATE_COMMENT',
                 'DATA_VALUES_NEST_LEVEL_0', 'DATA_VALUES_NEST_LEVEL_1', 'DATA_VALUES_NEST_LEVEL_2',
@@ -193,7 +215,7 @@ def resolved(t):
 
 def parse_type(s):
     s = s.strip()
-    if s in ('int', 'nat', 'bool', 'str', 'bytes', 'obj', 'intorslice', 'unit'):
+    if s in ('int', 'nat', 'bool', 'str', 'bytes', 'obj', 'intorslice', 'unit', 'exc'):
         return (s,)
     if re.match(r'[A-Z]\w*$', s):
         return ('named', s)      # a namedtuple or a stateful class declared in the same SPEC entry
@@ -242,6 +264,8 @@ def lean_type(t, top=True):
         return 'Py.IntOrSlice'
     elif k == 'unit':
         return 'Unit'
+    elif k == 'exc':
+        return 'Py.Exc'
     elif k == 'named':
         return t[1] + '.Self' if NAMED_KIND.get(t[1]) == 'class' else t[1]
     elif k == 'opt':
@@ -282,7 +306,7 @@ def default_value(t):
         return '(Py.IntOrSlice.int 0)'
     if k == 'unit':
         return '()'
-    if k == 'named':
+    if k in ('named', 'exc'):
         return 'default'
     if k == 'tuple':
         return '(' + ', '.join(default_value(x) for x in t[1:]) + ')'
@@ -2216,6 +2240,518 @@ def render_named(gen, spec, func_texts):
 
 
 # =============================================================================================
+# ---- functions in "flow" style (block added for C11 / C12: `decoder.generate_bufr_message`) --------------
+# A function declared under 'flowfuncs' in SPEC may contain `return` inside loops, `try/except` whose handler goes on,
+# `yield`, and calls of code that is NOT translated: those are declared as callbacks and become fields of a record
+# `<function>.Env` of functions `args → Except Py.Exc result` (the theorem quantifies over them).  Every block is a
+# term of type `Py.Flow Locals` (`next v` / `ret v` / `raise e v`: all three carry the variables).  A generator
+# returns `List Y × Except Py.Exc Unit`: the values yielded, and how it ended.  See notes/Tie.md ("Flow functions").
+EXC = ('exc',)
+
+
+class FlowCompiler(MethodCompiler):
+    allow_attr_store = True
+
+    def __init__(self, mod, gen, node, lean_name, params, fs, records):
+        cls = ClassInfo('py2lean_no_class', node, {}, {})
+        MethodCompiler.__init__(self, mod, gen, node, lean_name, params, cls, {}, {k: parse_type(t) for k, t in fs.get('locals', {}).items()})
+        self.self_attrs = None
+        self.fs = fs
+        self.records = records               # record type name -> {python attribute path: (lean field, type)}
+        self.callbacks = fs.get('callbacks', {})
+        self.used_callbacks = []             # in order of first use
+        self.except_classes = []             # non-builtin classes named in `except`
+        self.yield_type = parse_type(fs['yields']) if fs.get('yields') else None
+        self.ignored = set(fs.get('ignored_params', []))
+
+    # -- expressions ------------------------------------------------------------------------------
+    def attr_path(self, e):
+        path = []
+        while isinstance(e, ast.Attribute):
+            path.append(e.attr)
+            e = e.value
+        if isinstance(e, ast.Name) and e.id in self.names:
+            return e.id, list(reversed(path))
+        return None, None
+
+    def record_field(self, e):
+        base, path = self.attr_path(e)
+        if base is None:
+            return None
+        t = prune(self.names[base][1])
+        if isinstance(t, TV) or t[0] != 'named' or t[1] not in self.records:
+            return None
+        fld = self.records[t[1]].get('.'.join(path))
+        if fld is None:
+            self.bad(e, 'attribute %s of a %s is not declared in the translator specification' % ('.'.join(path), t[1]))
+        return base, fld
+
+    def e_Attribute(self, e):
+        rf = self.record_field(e)
+        if rf is not None:
+            base, (fld, ty) = rf
+            return Ex('%s.%s' % (self.names[base][0], fld), ty)
+        if (isinstance(e.value, ast.Name) and e.value.id == 'string' and e.attr == 'whitespace'
+                and 'string' not in self.names and module_imports(self.mod, 'string')):
+            return Ex(lean_str(string.whitespace), STR)
+        self.bad(e, 'attribute access is not in the table (only declared attributes of a local record)')
+
+    def e_Name(self, e):
+        if e.id in self.names or e.id in ('True', 'False'):
+            return FuncCompiler.e_Name(self, e)
+        if e.id not in self.mod.assigns:
+            # `from pybufrkit.<m> import NAME`: the constant of the other module, translated from ITS source
+            for node in self.mod.tree.body:
+                if isinstance(node, ast.ImportFrom) and node.level == 0 and (node.module or '').startswith('pybufrkit.') \
+                        and any(a.name == e.id and a.asname is None for a in node.names) and not module_binds(self.mod, e.id):
+                    return Ex(lean_ident(e.id), self.gen.require_imported_const(e.id, node.module, e))
+        return FuncCompiler.e_Name(self, e)
+
+    def subscript(self, e, a, i):
+        return MethodCompiler.subscript(self, e, a, i)
+
+    def e_Subscript(self, e):
+        if isinstance(e.slice, ast.Slice):
+            sl = e.slice
+            if sl.step is not None:
+                self.bad(e, 'slice with a step')
+            a = self.unopt(self.expr(e.value))
+            if self.kind(a, e) not in ('str', 'bytes', 'list'):
+                self.bad(e, 'slicing of a %s' % self.kind(a, e))
+            parts = [a]
+            for b in (sl.lower, sl.upper):
+                if b is None:
+                    parts.append(Ex('none', ('opt', INT)))
+                else:
+                    x = self.to_int(self.unopt(self.expr(b)))
+                    if self.kind(x, e) != 'int':
+                        self.bad(e, 'slice bound of type %s' % self.kind(x, e))
+                    parts.append(self.lift([x], lambda c: '(some %s)' % c[0], ('opt', INT)))
+            return self.lift(parts, lambda c: '(Py.sliceSeq %s %s %s)' % (c[0], c[1], c[2]), a.ty)
+        return FuncCompiler.e_Subscript(self, e)
+
+    def e_Compare(self, e):
+        if len(e.ops) == 1 and isinstance(e.ops[0], (ast.Is, ast.IsNot)) and isinstance(e.comparators[0], ast.Constant) \
+                and e.comparators[0].value is None:
+            a = self.expr(e.left)
+            if not self.is_opt(a):
+                self.bad(e, '`is None` on a value that cannot be None')
+            fmt = '(Option.isNone %s)' if isinstance(e.ops[0], ast.Is) else '(Option.isSome %s)'
+            return self.lift([a], lambda c: fmt % c[0], BOOL)
+        return MethodCompiler.e_Compare(self, e)
+
+    def as_bool(self, ex, node):
+        t = prune(ex.ty)
+        if not isinstance(t, TV) and t[0] == 'opt' and prune(t[1])[0] in ('str', 'bytes', 'list'):
+            # truth value of `None`-or-sequence: None and the empty sequence are false
+            return self.lift([ex], lambda c: '(Py.truthyOptSeq %s)' % c[0], BOOL)
+        return FuncCompiler.as_bool(self, ex, node)
+
+    def callback_of(self, e):
+        if not isinstance(e, ast.Call):
+            return None
+        try:
+            key = ast.unparse(e.func)
+        except Exception:
+            return None
+        return key if key in self.callbacks else None
+
+    def e_Call(self, e):
+        key = self.callback_of(e)
+        if key is not None:
+            return self.callback_call(e, key)
+        f = e.func
+        if isinstance(f, ast.Attribute) and f.attr == 'find' and len(e.args) == 2 and not e.keywords:
+            recv = self.unopt(self.expr(f.value))
+            arg = self.unopt(self.expr(e.args[0]))
+            st = self.to_int(self.unopt(self.expr(e.args[1])))
+            k = self.kind(recv, e)
+            if k in ('str', 'bytes') and self.kind(arg, e) == k and self.kind(st, e) == 'int':
+                return self.lift([recv, arg, st], lambda c: '(Py.seqFind %s %s %s)' % (c[0], c[1], c[2]), INT)
+        return MethodCompiler.e_Call(self, e)
+
+    def callback_call(self, e, key):
+        cb = self.callbacks[key]
+        name = cb['lean']
+        if key not in self.used_callbacks:
+            self.used_callbacks.append(key)
+        args = []
+        if cb.get('receiver'):
+            # a method of a local object: the object is the first argument; `None.method` is an AttributeError
+            r = self.expr(ast.Name(id=cb['receiver'], ctx=ast.Load()))
+            if self.is_opt(r):
+                r = self.lift([r], lambda c: '(Py.unwrapAttr %s)' % c[0], prune(r.ty)[1], result_raises=True)
+            args.append(r)
+        a = self.node.args
+        seen_pos, seen_kw = 0, set()
+        want_pos = [x for x in cb['args'] if x[0] == 'pos']
+        plain = [x for x in e.args if not isinstance(x, ast.Starred)]
+        starred = [x for x in e.args if isinstance(x, ast.Starred)]
+        if len(plain) != len(want_pos):
+            self.bad(e, 'callback %s with %d positional arguments' % (key, len(plain)))
+        # positional arguments first (Python evaluates them left to right, then *args, then keywords)
+        for x, (_, ty) in zip(plain, want_pos):
+            args.append(self.coerce(self.to_int(self.expr(x)), parse_type(ty), e))
+        want_star = [x for x in cb['args'] if x[0] == 'varargs']
+        if len(starred) != len(want_star) or any(not (isinstance(x.value, ast.Name) and a.vararg and x.value.id == a.vararg.arg) for x in starred):
+            self.bad(e, 'callback %s: starred arguments other than the function\'s own *args passed through' % key)
+        kwspec = {x[1]: x for x in cb['args'] if x[0] in ('kw', 'constkw')}
+        want_kwargs = any(x[0] == 'kwargs' for x in cb['args'])
+        got_kwargs = False
+        kwvals = {}
+        for k in e.keywords:
+            if k.arg is None:
+                if not (want_kwargs and isinstance(k.value, ast.Name) and a.kwarg and k.value.id == a.kwarg.arg):
+                    self.bad(e, 'callback %s: ** argument other than the function\'s own **kwargs passed through' % key)
+                got_kwargs = True
+                continue
+            if k.arg not in kwspec:
+                self.bad(e, 'callback %s: keyword %s is not in the translator specification' % (key, k.arg))
+            sp = kwspec[k.arg]
+            if sp[0] == 'constkw':
+                if not (isinstance(k.value, ast.Constant) and k.value.value == sp[2]):
+                    self.bad(e, 'callback %s: keyword %s must be the literal %r' % (key, k.arg, sp[2]))
+            else:
+                kwvals[k.arg] = self.coerce(self.to_int(self.expr(k.value)), parse_type(sp[2]), e)
+            seen_kw.add(k.arg)
+        if want_kwargs != got_kwargs or seen_kw != set(kwspec):
+            self.bad(e, 'callback %s: keywords differ from the translator specification' % key)
+        for x in cb['args']:
+            if x[0] == 'kw':
+                args.append(kwvals[x[1]])
+        rty = parse_type(cb['returns'])
+        return self.lift(args, lambda c: '(env.%s%s)' % (name, ''.join(' ' + x for x in c)), rty, result_raises=True)
+
+    # -- statements: terms of type `Py.Flow Locals` ----------------------------------------------------
+    def flow_assign(self, build, ex):
+        """build(code) is a Locals term; ex may raise"""
+        if ex.raises:
+            t = self.fresh()
+            return '(Py.Flow.eval v %s (fun %s => Py.Flow.next %s))' % (ex.code, t, build(t))
+        return '(Py.Flow.next %s)' % build(ex.code)
+
+    def set_local_flow(self, name, ex, node):
+        text, raises = FuncCompiler.set_local(self, name, ex, node)
+        # FuncCompiler.set_local renders `{ v with x := e }` or `(do let t ← e; pure { v with x := t })`
+        if raises:
+            m = re.match(r'\(do let (t\d+) ← (.*); pure (\{ v with .* \})\)$', text, re.S)
+            return '(Py.Flow.eval v %s (fun %s => Py.Flow.next %s))' % (m.group(2), m.group(1), m.group(3))
+        return '(Py.Flow.next %s)' % text
+
+    def fstmt(self, s):
+        if isinstance(s, ast.Expr):
+            c = s.value
+            if isinstance(c, ast.Constant) and isinstance(c.value, str):
+                return None
+            if isinstance(c, ast.Yield):
+                if self.yield_type is None or c.value is None:
+                    self.bad(s, 'yield in a function that is not declared a generator / yield without a value')
+                x = self.coerce(self.to_int(self.expr(c.value)), self.yield_type, s)
+                return self.flow_assign(lambda k: '{ v with py_yields := v.py_yields ++ [%s] }' % k, x)
+            if self.callback_of(c) is not None:
+                x = self.expr(c)
+                return '(Py.Flow.eval v %s (fun _ => Py.Flow.next v))' % x.code
+            if isinstance(c, ast.Call) and isinstance(c.func, ast.Name) and c.func.id == 'print' and self.builtin('print'):
+                # output is not modelled; the arguments are evaluated (a message cannot raise)
+                effs = []
+                for a in c.args:
+                    effs += self.effects(a)
+                for k in c.keywords:
+                    if not (k.arg == 'file' and isinstance(k.value, ast.Attribute) and isinstance(k.value.value, ast.Name)
+                            and k.value.value.id == 'sys' and k.value.attr in ('stderr', 'stdout')):
+                        effs += self.effects(k.value)
+                if effs:
+                    self.bad(s, 'print() whose arguments may raise')
+                return None
+            self.bad(s, 'expression statement is not in the table')
+        if isinstance(s, ast.Pass):
+            return None
+        if isinstance(s, ast.Assign) and len(s.targets) == 1:
+            tgt = s.targets[0]
+            if isinstance(tgt, ast.Name):
+                return self.set_local_flow(tgt.id, self.expr(s.value), s)
+            if isinstance(tgt, ast.Attribute):
+                rf = self.record_field(tgt)
+                if rf is None:
+                    self.bad(s, 'attribute assignment other than a declared attribute of a local record')
+                base, (fld, ty) = rf
+                x = self.coerce(self.to_int(self.expr(s.value)), ty, s)
+                b = lean_ident(base)
+                return self.flow_assign(lambda k: '{ v with %s := { v.%s with %s := %s } }' % (b, b, fld, k), x)
+            if isinstance(tgt, ast.Tuple) and all(isinstance(t, ast.Name) for t in tgt.elts):
+                x = self.expr(s.value)
+                tx = prune(x.ty)
+                if isinstance(tx, TV) or tx[0] != 'tuple' or len(tx) - 1 != len(tgt.elts):
+                    self.bad(s, 'tuple unpacking of something that is not a tuple of %d elements' % len(tgt.elts))
+                n = len(tgt.elts)
+
+                def build(k):
+                    out = 'v'
+                    for i, t in enumerate(tgt.elts):
+                        proj = k + ''.join('.2' for _ in range(i)) + ('.1' if i < n - 1 else '')
+                        self.unify(self.local_types[t.id], tx[i + 1], s)
+                        out = '{ %s with %s := %s }' % (out, lean_ident(t.id), proj)
+                    return out
+                if not x.raises:
+                    t = self.fresh()
+                    return '(let %s := %s; Py.Flow.next %s)' % (t, x.code, build(t))
+                return self.flow_assign(build, x)
+            self.bad(s, 'assignment target is not in the table')
+        if isinstance(s, ast.AugAssign) and isinstance(s.target, ast.Name):
+            fake = ast.BinOp(left=ast.Name(id=s.target.id, ctx=ast.Load()), op=s.op, right=s.value)
+            ast.copy_location(fake, s)
+            ast.copy_location(fake.left, s)
+            return self.set_local_flow(s.target.id, self.expr(fake), s)
+        if isinstance(s, ast.If):
+            c = self.as_bool(self.expr(s.test), s.test)
+            a = self.fblock(s.body)
+            b = self.fblock(s.orelse) if s.orelse else '(Py.Flow.next v)'
+            body = lambda k: '(if %s then\n    %s\n  else\n    %s)' % (k, indent_rest(a, 4), indent_rest(b, 4))
+            if c.raises:
+                t = self.fresh()
+                return '(Py.Flow.eval v %s (fun %s =>\n  %s))' % (c.code, t, indent_rest(body(t), 2))
+            return body(c.code)
+        if isinstance(s, ast.Return):
+            if s.value is not None:
+                self.bad(s, '`return` with a value in a flow function')
+            return '(Py.Flow.ret v)'
+        if isinstance(s, ast.Raise):
+            if s.cause is None and isinstance(s.exc, ast.Name) and s.exc.id in self.names and prune(self.names[s.exc.id][1]) == EXC:
+                return '(Py.Flow.raise %s v)' % self.names[s.exc.id][0]
+            text = MethodCompiler.raise_stmt(self, s)
+            m = re.match(r'\(Except\.error (\(Py\.Exc\.raised "[^"]*"\))\)$', text)
+            if not m:
+                self.bad(s, 'raise whose arguments may raise, in a flow function')
+            return '(Py.Flow.raise %s v)' % m.group(1)
+        if isinstance(s, ast.Try):
+            return self.ftry(s)
+        if isinstance(s, ast.While):
+            return self.fwhile(s)
+        self.bad(s, 'statement construct %s is not in the table (flow functions)' % type(s).__name__)
+
+    def fblock(self, stmts):
+        items = [x for x in (self.fstmt(s) for s in stmts) if x is not None]
+        if not items:
+            return '(Py.Flow.next v)'
+        text = items[-1]
+        for it in reversed(items[:-1]):
+            text = '(Py.Flow.bind %s (fun (v : Locals) =>\n  %s))' % (indent_rest(it, 2), indent_rest(text, 2))
+        return text
+
+    def ftry(self, s):
+        if s.orelse or s.finalbody or len(s.handlers) != 1:
+            self.bad(s, 'try with else / finally / several handlers')
+        h = s.handlers[0]
+        if not isinstance(h.type, ast.Name):
+            self.bad(s, 'except clause other than `except Cls [as e]:`')
+        cname = h.type.id
+        if cname in BUILTIN_EXC and self.builtin(cname):
+            catches = '(fun e => decide (e = Py.Exc.%s))' % BUILTIN_EXC[cname]
+        else:
+            if cname in self.names or cname in self.mod.funcs or cname in self.mod.assigns:
+                self.bad(s, 'except %s: not a class name' % cname)
+            # which exceptions are instances of a class of the library is not modelled: a parameter
+            if cname not in self.except_classes:
+                self.except_classes.append(cname)
+            catches = 'env.isinstance_%s' % cname
+        body = self.fblock(s.body)
+        if h.name is not None:
+            if h.name not in self.local_types:
+                self.bad(s, 'internal: exception variable')
+            self.unify(self.local_types[h.name], EXC, s)
+            hb = self.fblock(h.body)
+            handler = '(fun (e : Py.Exc) (v : Locals) =>\n  let v : Locals := { v with %s := e }\n  %s)' % (lean_ident(h.name), indent_rest(hb, 2))
+        else:
+            handler = '(fun (_ : Py.Exc) (v : Locals) =>\n  %s)' % indent_rest(self.fblock(h.body), 2)
+        return '(Py.Flow.tryExcept %s\n  %s\n  %s)' % (indent_rest(body, 2), catches, indent_rest(handler, 2))
+
+    def fwhile(self, s):
+        if s.orelse:
+            self.bad(s, 'while ... else')
+        for n in ast.walk(s):
+            if isinstance(n, (ast.Break, ast.Continue)):
+                self.bad(n, 'break / continue')
+        t = s.test
+        if not (isinstance(t, ast.Compare) and len(t.ops) == 1 and isinstance(t.ops[0], (ast.Lt, ast.LtE))):
+            self.bad(s, 'while loop whose test is not `a < b` or `a <= b` (no fuel expression can be derived)')
+        lo, hi = self.expr(t.left), self.expr(t.comparators[0])
+        if lo.raises or hi.raises or self.kind(lo, t) not in ('int', 'nat') or self.kind(hi, t) not in ('int', 'nat'):
+            self.bad(s, 'while loop test over non-int or raising expressions')
+        extra = 1 if isinstance(t.ops[0], ast.Lt) else 2
+        if prune(lo.ty) == NAT and prune(hi.ty) == NAT:
+            fuel = '(%s - %s + %d)' % (hi.code, lo.code, extra)
+        else:
+            fuel = '((%s - %s).toNat + %d)' % (self.to_int(hi).code, self.to_int(lo).code, extra)
+        cond = self.as_bool(self.expr(t), t)
+        if cond.raises:
+            self.bad(s, 'while loop test that may raise')
+        body = self.fblock(s.body)
+        self.nloops += 1
+        name = 'while_%d' % self.nloops
+        a, b, _ = self.mod.src(s)
+        out = ['/-- %s:%d-%d  test of the `while` loop -/' % (self.mod.relpath, a, b),
+               'def %s.cond (env : Env) (v : Locals) : Bool :=\n  %s' % (name, indent_rest(cond.code, 2)),
+               '/-- %s:%d-%d  body of the `while` loop -/' % (self.mod.relpath, s.body[0].lineno, b),
+               'def %s.body (env : Env) (v : Locals) : Py.Flow Locals :=\n  %s' % (name, indent_rest(body, 2)),
+               '/-- the loop: structural recursion on the fuel; out of fuel is the explicit error `.outOfFuel` -/',
+               'def %s.loop (env : Env) : Nat → Locals → Py.Flow Locals' % name,
+               '  | 0, v => .raise .outOfFuel v',
+               '  | fuel + 1, v =>',
+               '    if %s.cond env v then' % name,
+               '      match %s.body env v with' % name,
+               '      | .next v => %s.loop env fuel v' % name,
+               '      | .ret v => .ret v',
+               '      | .raise e v => .raise e v',
+               '    else .next v']
+        self.aux.append('\n'.join(out))
+        return '(%s.loop env %s v)' % (name, fuel)
+
+    def collect_locals(self):
+        names = FuncCompiler.collect_locals(self)
+        for n in ast.walk(self.node):
+            if isinstance(n, ast.ExceptHandler) and n.name and n.name not in names and n.name not in self.params:
+                names.append(n.name)
+        return names
+
+    def definite_other(self, s, assigned):
+        if isinstance(s, ast.Try):
+            a = self.definite(s.body, assigned)
+            for h in s.handlers:
+                b = self.definite(h.body, set(assigned) | ({h.name} if h.name else set()))
+                a = a & (b - ({h.name} if h.name else set()))
+            return a
+        return MethodCompiler.definite_other(self, s, assigned)
+
+    def tail(self, stmts):
+        return self.fblock(stmts), True
+
+    def compile(self):
+        # parameters that are declared "ignored" (passed through to callbacks only) are removed from the signature check
+        node = self.node
+        a = node.args
+        argnames = [x.arg for x in a.args if x.arg not in self.ignored]
+        if argnames != list(self.params) or a.kwonlyargs or a.posonlyargs or node.decorator_list:
+            self.bad(node, 'parameters %s differ from the translator specification %s' % (argnames, list(self.params)))
+        for nm in self.ignored:
+            for n in ast.walk(node):
+                if isinstance(n, ast.Name) and n.id == nm.lstrip('*') and isinstance(n.ctx, ast.Load):
+                    ok = any(n is c or n is getattr(c, 'value', None) for c in ast.walk(node)
+                             if isinstance(c, (ast.Starred, ast.keyword)))
+                    par = self.parent_of(n)
+                    okcb = isinstance(par, ast.Attribute) and self.is_callback_func(par)
+                    if not ok and not okcb:
+                        self.bad(n, 'the ignored parameter %s is used other than by passing it to a callback' % nm)
+        for d in a.defaults:
+            if not isinstance(d, ast.Constant):
+                self.bad(node, 'non-literal default value')
+        local_names = self.collect_locals()
+        self.local_types = {n: self.initial_local_type(n) for n in local_names}
+        self.nat_locals = set()
+        self.definite(self.body_stmts(), set(self.params))
+        self.run(local_names)
+        self.run(local_names)
+        for n in local_names:
+            if not resolved(self.local_types[n]):
+                self.bad(node, 'cannot infer the type of local variable %s' % n)
+        text, _ = self.run(local_names)
+        return local_names, text, True
+
+    def parent_of(self, n):
+        for c in ast.walk(self.node):
+            for ch in ast.iter_child_nodes(c):
+                if ch is n:
+                    return c
+        return None
+
+    def is_callback_func(self, attr):
+        try:
+            return ast.unparse(attr) in self.callbacks
+        except Exception:
+            return False
+
+    def render(self, doc):
+        local_names, text, _ = self.compile()
+        ns = self.lean_name
+        fields = [(lean_ident(p), lean_type(t), lean_ident(p)) for p, t in self.params.items()]
+        for n in local_names:
+            t = self.local_types[n]
+            fields.append((lean_ident(n), lean_type(t), default_value(t)))
+        if self.yield_type is not None:
+            fields.append(('py_yields', 'List %s' % lean_type(self.yield_type, False), '[]'))
+        out = ['namespace %s' % ns,
+               '/-- the code this function calls that is NOT translated, as parameters (the theorems quantify over them); a',
+               '    callback is a function of the arguments listed in the translator specification that returns or raises;',
+               '    `isinstance_<Cls>`: which exceptions an `except <Cls>` clause catches -/',
+               'structure Env where']
+        for key in self.used_callbacks:
+            cb = self.callbacks[key]
+            tys = []
+            if cb.get('receiver'):
+                tys.append(lean_type(prune(self.names[cb['receiver']][1])[1] if self.is_opt(Ex('', self.names[cb['receiver']][1])) else self.names[cb['receiver']][1], False))
+            tys += [lean_type(parse_type(x[1]), False) for x in cb['args'] if x[0] == 'pos']
+            tys += [lean_type(parse_type(x[2]), False) for x in cb['args'] if x[0] == 'kw']
+            out.append('  /-- `%s(...)` -/' % key)
+            out.append('  %s : %s' % (cb['lean'], ' → '.join(tys + ['Except Py.Exc %s' % lean_type(parse_type(cb['returns']), False)])))
+        for c in self.except_classes:
+            out.append('  /-- `except %s`: is the exception an instance of that class -/' % c)
+            out.append('  isinstance_%s : Py.Exc → Bool' % c)
+        out.append('')
+        out.append('/-- the variables of `%s` (parameters first)%s -/' % (self.node.name, '; `py_yields`: the values yielded so far' if self.yield_type else ''))
+        out.append('structure Locals where')
+        for f, t, _ in fields:
+            out.append('  %s : %s' % (f, t))
+        out.append('')
+        for a in self.aux:
+            out.append(a)
+            out.append('')
+        out.append('end %s' % ns)
+        out.append('')
+        out.append('open %s in' % ns)
+        out.append(doc)
+        params_sig = ' (env : %s.Env)' % ns + ''.join(' (%s : %s)' % (lean_ident(p), lean_type(t)) for p, t in self.params.items())
+        init = ', '.join('%s := %s' % (f, d) for f, _, d in fields)
+        if self.yield_type is not None:
+            rty = 'List %s × Except Py.Exc Unit' % lean_type(self.yield_type, False)
+            fin = '((Py.Flow.finish r).1.py_yields, (Py.Flow.finish r).2)'
+        else:
+            rty = 'Except Py.Exc Unit'
+            fin = '(Py.Flow.finish r).2'
+        out.append('def %s%s : %s :=\n  let v : Locals := { %s }\n  let r : Py.Flow Locals := %s\n  %s' % (
+            ns, params_sig, rty, init, indent_rest(text, 2), fin))
+        return '\n'.join(out), True
+
+
+def render_flow(gen, spec, func_texts):
+    mod = gen.mod
+    records = {}
+    for rname, rs in spec.get('records', {}).items():
+        NAMED_KIND[rname] = 'record'
+        flds = {}
+        st = ['/-- what the translated code reads or assigns of a `%s` object (attribute paths of the Python object; `other`:' % rname,
+              '    everything else about it) -/', 'structure %s where' % rname]
+        for path, ty in rs['fields'].items():
+            fld = lean_ident(path.replace('.', '_'))
+            flds[path] = (fld, parse_type(ty))
+            st.append('  /-- `.%s` -/' % path)
+            st.append('  %s : %s' % (fld, lean_type(parse_type(ty))))
+        st.append('  other : Py.Obj')
+        st.append('  deriving DecidableEq, Repr, Inhabited')
+        records[rname] = flds
+        func_texts.append('\n'.join(st))
+    for fname, fs in spec.get('flowfuncs', {}).items():
+        nodes = mod.funcs.get(fname, [])
+        if len(nodes) != 1:
+            raise Py2LeanUnsupported(mod.relpath, 0, 'function %s not found exactly once' % fname)
+        node = nodes[0]
+        params = {p: parse_type(t) for p, t in fs['params'].items()}
+        fc = FlowCompiler(mod, gen, node, lean_ident(fname), params, fs, records)
+        a, b, _ = mod.src(node)
+        text, _ = fc.render('/-- %s:%d-%d  `def %s` -/' % (mod.relpath, a, b, fname))
+        func_texts.append(text)
+        gen.items.append({'kind': 'function', 'name': fname, 'lines': [a, b], 'may_raise': True})
+
+
+# =============================================================================================
 class ModuleGen(object):
     """the generated Lean file of one Python module"""
 
@@ -2272,6 +2808,24 @@ class ModuleGen(object):
             return ty
         return None
 
+    def require_imported_const(self, name, module, at):
+        """a constant imported with `from pybufrkit.<m> import NAME`: translated from the source of that module"""
+        if name in self.const_types:
+            return self.const_types[name]
+        other = ModuleCtx(module.replace('.', '/') + '.py')
+        node = other.const_node(name, at)
+        ec = ExprCompiler(other, self)
+        ex = ec.to_int(ec.expr(node.value))
+        if ex.raises or not resolved(ex.ty):
+            raise Py2LeanUnsupported(other.relpath, node, 'imported constant %s is not a plain value' % name)
+        a, b, src = other.src(node)
+        doc = '/-- %s:%s  `%s`  (imported into %s) -/' % (other.relpath, a, src.replace('-/', '- /').replace('\n', ' ⏎ '), self.mod.relpath)
+        self.const_text[name] = '%s\ndef %s : %s := %s' % (doc, lean_ident(name), lean_type(ex.ty), ex.code)
+        self.const_types[name] = ex.ty
+        self.const_order.append(name)
+        self.items.append({'kind': 'const', 'name': name, 'lines': [a, b], 'file': other.relpath, 'blob': other.blob})
+        return ex.ty
+
     def render(self):
         spec = self.spec
         for name in spec.get('consts', []):
@@ -2294,6 +2848,7 @@ class ModuleGen(object):
             self.items.append({'kind': 'function', 'name': fname, 'lines': [a, b], 'may_raise': raises})
         NAMED_KIND.clear()
         render_named(self, spec, func_texts)      # namedtuples and stateful classes (block "stateful classes" below)
+        render_flow(self, spec, func_texts)       # records, functions in flow style (block "flow" below)
         for cname, cs in spec.get('classes', {}).items():
             if cs.get('stateful'):
                 continue
@@ -2354,8 +2909,8 @@ class ModuleGen(object):
             body.append('')
         tail = ['end PyGen.%s' % spec['module']]
         for it in self.items:
-            it['file'] = spec['file']
-            it['blob'] = self.mod.blob
+            it.setdefault('file', spec['file'])
+            it.setdefault('blob', self.mod.blob)
             it['gen_module'] = gen_module_name(spec)
         return '\n'.join(head + body + tail) + '\n'
 
